@@ -396,6 +396,8 @@ def main():
                 "model_output": outs.get(i), "id": cases[i][3]}
 
     replay_path = os.path.join(V, "replays", "%s-%s-%d.json" % (pid, tier, seed))
+    if os.path.exists(replay_path) and not a.replay:
+        os.remove(replay_path)
     if viol:
         viol.sort(key=lambda v: len(cases[v[0]][1]))
         rec = {"property": pid, "kind": "oracle-fails-on-implementation", "seed": seed, "tier": tier,
